@@ -294,6 +294,49 @@ def leg_keys(keys, report):
 # ------------------------------------------------------------------------------------------------------------
 # leg 3: class and function names
 
+def leg_keyword_fields(names, report):
+    """keys of a TypedDict and fields of a pydantic model may be real keywords (no trailing underscore needed): class, from, None"""
+    import pydantic
+    from typing import TypedDict
+    for name in names:
+        case = {"leg": "keyword_field", "name": name}
+        sig = {"check": "C19.keyword_field"}
+        td = TypedDict("TD", {name: int, "benign": str})
+        run_program(report, {**sig, "kind": "typeddict"}, f"TypedDict key {name!r}", case, td, [], {name: 1, "benign": "s"},
+                    {name: 1, "benign": "s"}, {name: 1, "benign": "s"})
+        run_program(report, {**sig, "kind": "typeddict"}, f"TypedDict key {name!r} renamed", case, td,
+                    [name_mapping(td, map={name: "renamed"})], {"renamed": 1, "benign": "s"},
+                    {name: 1, "benign": "s"}, {"renamed": 1, "benign": "s"})
+        try:
+            pm = pydantic.create_model("PM", **{name: (int, ...), "benign": (str, ...)})
+        except Exception:  # noqa: BLE001
+            report.skip("pydantic refuses the field name")
+            pm = None
+        if pm is not None:
+            run_program(report, {**sig, "kind": "pydantic"}, f"pydantic field {name!r}", case, pm, [], {name: 1, "benign": "s"},
+                        {name: 1, "benign": "s"}, {name: 1, "benign": "s"})
+        # converters in both directions between the TypedDict and a dataclass that spells the name with a trailing underscore
+        del CANARY_CALLS[:]
+        report.case(("C19.keyword_field.conv", name), nontrivial=True)
+        try:
+            td2 = TypedDict("TD2", {name: int, "benign": str})
+            out = get_converter(td, td2)({name: 1, "benign": "s"})
+            if out != {name: 1, "benign": "s"}:
+                report.violation({"check": "C19.converter", "problem": "wrong_result", "site": "keyword_field"},
+                                 f"converter TypedDict -> TypedDict with key {name!r} gives {out!r}", case)
+            if pm is not None:
+                out = get_converter(td, pm)({name: 1, "benign": "s"})
+                back = get_converter(pm, td)(out)
+                if (getattr(out, name), out.benign) != (1, "s") or back != {name: 1, "benign": "s"}:
+                    report.violation({"check": "C19.converter", "problem": "wrong_result", "site": "keyword_field"},
+                                     f"converter TypedDict <-> pydantic with field {name!r} gives {out!r} / {back!r}", case)
+            report.outcome("converted")
+        except Exception as e:  # noqa: BLE001
+            report.violation({"check": "C19.converter", "problem": "creation_failed", "site": "keyword_field",
+                              "exc": type(e.__cause__ or e).__name__},
+                             f"converter with keyword field {name!r} failed: {type(e).__name__}: {str(e.__cause__ or e)[:200]}", case)
+
+
 def leg_class_names(names, report):
     for name in names:
         case = {"leg": "class_name", "name": name}
@@ -514,7 +557,8 @@ def shard_fn(args):
     leg, items, tier = args
     _TIER[0] = tier
     report = Report()
-    {"ident": leg_identifiers, "keys": leg_keys, "classes": leg_class_names, "conv": leg_converter}[leg](items, report)
+    {"ident": leg_identifiers, "keys": leg_keys, "classes": leg_class_names, "conv": leg_converter,
+     "kwfields": leg_keyword_fields}[leg](items, report)
     return report
 
 
@@ -532,9 +576,13 @@ def run(tier):
     shards = [("ident", pairs[i::96], tier) for i in range(96) if pairs[i::96]]
     shards += [("keys", KEYS[i::16], tier) for i in range(16) if KEYS[i::16]]
     shards += [("classes", CLASS_NAMES[i::8], tier) for i in range(8) if CLASS_NAMES[i::8]]
+    kw_names = [n for n in [*keyword.kwlist, *getattr(keyword, "softkwlist", []), "print", "self", "cls", "data"] if not n.startswith("_")]
+    shards += [("kwfields", kw_names[i::8], tier) for i in range(8) if kw_names[i::8]]
     conv_items = [("field_name", x) for x in ids] + [("nested_field_name", x) for x in ids]
     conv_items += [("field_pair", (x, p + x)) for x in ids[:40] for p in ("f_", "r_", "v_", "coercer_", "src_") if (p + x).isidentifier()]
-    conv_items += [("function_name", x) for x in ids]     # keywords are not legal function names and are left out
+    # keywords are not legal function names and are left out; names the generators derive themselves are put in
+    conv_items += [("function_name", x) for x in ids + ["g_coercer", "g__closure_signature", "g_S", "g_D", "g_convert", "coerce_S_to_D",
+                                                        "g__stub_function", "g__update_wrapper", "_closure_maker", "g_g_coercer"]]
     conv_items += [("param_name", x) for x in ids if x not in ("s", "self")]
     conv_items += [("stub_default", v) for v in (0, "x", None, 1.5, Color.RED, BadRepr(), CodeRepr(), [1], (1,), object, len, *SUBCLASSED)]
     conv_items += [("model_default", v) for v in CONSTANTS]
